@@ -162,6 +162,162 @@ Proof.
   apply map_ext. intros k. f_equal. f_equal. lia.
 Qed.
 
+(* ---------- alloc_slice_try_fill_with: the closure answers Ok (Some true) or Err (Some false) ----------
+   On Err the whole block is handed back (dealloc(base_ptr, layout)) and the function returns at once:
+   the closure is not called again, nothing more is written. *)
+Definition tryloop : list stmt :=
+  match lookup "slice_try_fill_with_loop" src_procs with Some p => proc_body p | None => [] end.
+
+Definition trybody : list stmt :=
+  [SIfAsk false "f" [EVar "i"]
+     [SDo "write" [EMeth1 (EMeth0 (EVar "dst") "as_ptr") "add" (EVar "i")]]
+     [SDo "dealloc" [EVar "base_ptr"; EVar "layout"]; SReturn];
+   SSet "i" (EBin BAdd (EVar "i") (ELit 1))].
+
+Lemma tryloop_is : tryloop = [SLet "i" (ELit 0); SRepeat fcount trybody].
+Proof. reflexivity. Qed.
+
+Definition tyenv0 (len dst bp : N) (lay : val) : env :=
+  [("len", VN len); ("dst", VN dst); ("base_ptr", VN bp); ("layout", lay)].
+Definition tyenv (len dst bp : N) (lay : val) (i : N) : env :=
+  [("len", VN len); ("dst", VN dst); ("base_ptr", VN bp); ("layout", lay); ("i", VN i)].
+Definition e_dealloc (bp : N) (lay : val) : effect := ("dealloc", [VN bp; lay]).
+
+Inductive fend := FDone | FPanic | FErr.
+
+Lemma tyround_ok len dst bp lay i tr sc f : dst + i < W -> i + 1 < W ->
+  exec src_fns (S (S (S (S f)))) (tyenv len dst bp lay i) tr (Some true :: sc) trybody
+  = XOk (tyenv len dst bp lay (i + 1)) (List.app (List.app tr [e_ask i]) [e_write (dst + i)]) sc.
+Proof.
+  intros H1 H2. apply N.ltb_lt in H1. apply N.ltb_lt in H2. unfold trybody, e_ask, e_write.
+  rewrite exec_ifask.
+  replace (eval_args src_fns (tyenv len dst bp lay i) [EVar "i"]) with (Some [VN i]) by reflexivity.
+  cbn [xorb]. rewrite exec_do.
+  replace (eval_args src_fns (tyenv len dst bp lay i) [EMeth1 (EMeth0 (EVar "dst") "as_ptr") "add" (EVar "i")])
+    with (Some [VN (dst + i)])
+    by (cbv beta iota zeta delta [eval_args eval FUEL_SEM tyenv lookup bind meth0 meth1 String.eqb Ascii.eqb Bool.eqb];
+        rewrite H1; reflexivity).
+  rewrite exec_nil. rewrite exec_set.
+  replace (eval src_fns FUEL_SEM (tyenv len dst bp lay i) (EBin BAdd (EVar "i") (ELit 1))) with (Ret (VN (i + 1)))
+    by (cbv beta iota zeta delta [eval FUEL_SEM tyenv lookup bind arith String.eqb Ascii.eqb Bool.eqb];
+        rewrite H2; reflexivity).
+  replace (upd "i" (VN (i + 1)) (tyenv len dst bp lay i)) with (tyenv len dst bp lay (i + 1)) by reflexivity.
+  rewrite exec_nil. reflexivity.
+Qed.
+
+Lemma tyround_err len dst bp lay i tr sc f :
+  exec src_fns (S (S (S (S f)))) (tyenv len dst bp lay i) tr (Some false :: sc) trybody
+  = XRet (tyenv len dst bp lay i) (List.app (List.app tr [e_ask i]) [e_dealloc bp lay]) sc.
+Proof.
+  unfold trybody, e_ask, e_dealloc. rewrite exec_ifask.
+  replace (eval_args src_fns (tyenv len dst bp lay i) [EVar "i"]) with (Some [VN i]) by reflexivity.
+  cbn [xorb]. rewrite exec_do.
+  replace (eval_args src_fns (tyenv len dst bp lay i) [EVar "base_ptr"; EVar "layout"]) with (Some [VN bp; lay]) by reflexivity.
+  reflexivity.
+Qed.
+
+Lemma tyround_boom len dst bp lay i tr sc f :
+  exec src_fns (S (S (S (S f)))) (tyenv len dst bp lay i) tr (None :: sc) trybody
+  = XPanic (tyenv len dst bp lay i) (List.app tr [e_ask i]).
+Proof.
+  unfold trybody, e_ask. rewrite exec_ifask.
+  replace (eval_args src_fns (tyenv len dst bp lay i) [EVar "i"]) with (Some [VN i]) by reflexivity.
+  reflexivity.
+Qed.
+
+(* rounds still to go, index, script -> effects, index after, how it ended, script left *)
+Fixpoint tyrun (dst bp : N) (lay : val) (j : nat) (i : N) (sc : list (option bool))
+  : list effect * N * fend * list (option bool) :=
+  match j with
+  | O => ([], i, FDone, sc)
+  | S j' =>
+      match sc with
+      | [] => ([], i, FDone, sc)
+      | None :: r => ([e_ask i], i, FPanic, r)
+      | Some false :: r => ([e_ask i; e_dealloc bp lay], i, FErr, r)
+      | Some true :: r =>
+          let '(t, q, b, rest) := tyrun dst bp lay j' (i + 1) r in (e_ask i :: e_write (dst + i) :: t, q, b, rest)
+      end
+  end.
+
+Theorem rounds_are_tyrun : forall j len dst bp lay i tr sc f,
+  dst + i + N.of_nat j < W -> (j <= List.length sc)%nat ->
+  let '(t, q, b, rest) := tyrun dst bp lay j i sc in
+  repf src_fns (S (S (S (S f)))) trybody [] j (tyenv len dst bp lay i) tr sc =
+  match b with
+  | FDone => XOk (tyenv len dst bp lay q) (List.app tr t) rest
+  | FPanic => XPanic (tyenv len dst bp lay q) (List.app tr t)
+  | FErr => XRet (tyenv len dst bp lay q) (List.app tr t) rest
+  end.
+Proof.
+  induction j as [|j IH]; intros len dst bp lay i tr sc f Hw Hs.
+  - cbn [tyrun repf]. rewrite exec_nil, app_nil_r. reflexivity.
+  - destruct sc as [|[[|]|] sc]; [cbn in Hs; lia| | |]; cbn [List.length] in Hs; cbn [tyrun repf].
+    + rewrite tyround_ok by lia.
+      specialize (IH len dst bp lay (i + 1) (List.app (List.app tr [e_ask i]) [e_write (dst + i)]) sc f ltac:(lia) ltac:(lia)).
+      destruct (tyrun dst bp lay j (i + 1) sc) as [[[t q] bb] rest]. rewrite IH.
+      rewrite <- !app_assoc. cbn [List.app]. reflexivity.
+    + rewrite tyround_err. rewrite <- !app_assoc. reflexivity.
+    + rewrite tyround_boom. reflexivity.
+Qed.
+
+Theorem loop_is_tyrun len dst bp lay tr sc f : dst + len < W ->
+  (N.to_nat len <= List.length sc)%nat ->
+  let '(t, q, b, rest) := tyrun dst bp lay (N.to_nat len) 0 sc in
+  exec src_fns (S (S (S (S (S (S f)))))) (tyenv0 len dst bp lay) tr sc tryloop =
+  match b with
+  | FDone => XOk (tyenv len dst bp lay q) (List.app tr t) rest
+  | FPanic => XPanic (tyenv len dst bp lay q) (List.app tr t)
+  | FErr => XRet (tyenv len dst bp lay q) (List.app tr t) rest
+  end.
+Proof.
+  intros H1 H2. rewrite tryloop_is. rewrite exec_let.
+  replace (eval src_fns FUEL_SEM (tyenv0 len dst bp lay) (ELit 0)) with (Ret (VN 0)) by reflexivity.
+  replace (upd "i" (VN 0) (tyenv0 len dst bp lay)) with (tyenv len dst bp lay 0) by reflexivity.
+  rewrite exec_repeat.
+  replace (eval src_fns FUEL_SEM (tyenv len dst bp lay 0) fcount) with (Ret (VN len)).
+  2:{ unfold fcount. cbv beta iota zeta delta [eval FUEL_SEM tyenv lookup bind arith String.eqb Ascii.eqb Bool.eqb].
+      replace (0 <=? len) with true by (symmetry; apply N.leb_le; lia). rewrite N.sub_0_r. reflexivity. }
+  apply rounds_are_tyrun; lia.
+Qed.
+
+Definition says_ok (o : option bool) : bool := match o with Some true => true | _ => false end.
+
+(* every answer is Ok: the same calls and stores as the infallible loop *)
+Theorem tyrun_all_ok : forall j dst bp lay i sc,
+  (j <= List.length sc)%nat -> forallb says_ok (firstn j sc) = true ->
+  tyrun dst bp lay j i sc = (filled dst j i, i + N.of_nat j, FDone, skipn j sc).
+Proof.
+  induction j as [|j IH]; intros dst bp lay i sc Hs Hr.
+  - cbn [tyrun filled skipn]. f_equal. f_equal. f_equal. lia.
+  - destruct sc as [|[[|]|] sc]; [cbn in Hs; lia| |cbn in Hr; discriminate|cbn in Hr; discriminate].
+    cbn [firstn forallb says_ok andb List.length] in Hr, Hs. cbn [tyrun filled skipn].
+    rewrite (IH dst bp lay (i + 1) sc) by (lia || exact Hr). f_equal. f_equal. f_equal. lia.
+Qed.
+
+(* the first Err is the (k+1)-th answer: indices 0..k-1 were asked and stored, index k was asked,
+   then the whole block goes back (one dealloc of base_ptr with the layout it was allocated with)
+   and the procedure returns: no further call of the closure, no further store *)
+Theorem tyrun_err_at : forall k j dst bp lay i sc,
+  (k < j)%nat -> forallb says_ok (firstn k sc) = true -> nth k sc None = Some false ->
+  tyrun dst bp lay j i sc
+  = (List.app (filled dst k i) [e_ask (i + N.of_nat k); e_dealloc bp lay], i + N.of_nat k, FErr, skipn (S k) sc).
+Proof.
+  induction k as [|k IH]; intros j dst bp lay i sc Hk Hr Hn.
+  - destruct j as [|j]; [lia|]. destruct sc as [|[[|]|] sc]; cbn in Hn; try discriminate.
+    cbn [tyrun filled List.app skipn]. rewrite N.add_0_r. reflexivity.
+  - destruct j as [|j]; [lia|]. destruct sc as [|[[|]|] sc]; cbn in Hn; try discriminate.
+    cbn [firstn forallb says_ok andb] in Hr. cbn [tyrun filled].
+    rewrite (IH j dst bp lay (i + 1) sc) by (lia || assumption).
+    cbn [List.app skipn]. replace (i + 1 + N.of_nat k) with (i + N.of_nat (S k)) by lia. reflexivity.
+Qed.
+
+Example try_fill_walk_err_ex :
+  exec src_fns 9 (tyenv0 4 1000 1000 (VN 77)) [] [Some true; Some true; Some false; Some true] tryloop
+  = XRet (tyenv 4 1000 1000 (VN 77) 2)
+      [e_ask 0; e_write 1000; e_ask 1; e_write 1001; e_ask 2; e_dealloc 1000 (VN 77)] [Some true].
+Proof. vm_compute. reflexivity. Qed.
+
 Example fill_walk_ex :
   exec src_fns 9 (fenv0 3 1000) [] [Some true; Some true; Some true; Some false] floop
   = XOk (fenv 3 1000 3) [e_ask 0; e_write 1000; e_ask 1; e_write 1001; e_ask 2; e_write 1002] [Some false].
